@@ -4,8 +4,11 @@
 //! of a file system: whole-file reads and writes by path, no directories, no permissions. What it adds is faults, chosen
 //! by the operation that is being executed (so they are part of the recorded history and replay with it):
 //!  - a read that fails (`EIO`),
-//!  - the k-th write of one `write()` call fails with "no space left": either nothing of that file reaches the disk, or a
-//!    torn prefix of it does; earlier files of the same call are on disk, later ones are not attempted by the caller.
+//!  - the write of ONE named file of a `write()` call fails with "no space left": either nothing of that file reaches the
+//!    disk, or a torn prefix of it does. `AutosarModel::write` walks a `HashMap` with std's random hasher, so which of the
+//!    other files it writes before it meets the failing one differs from process to process; to keep one seed one
+//!    execution, a failed call leaves the other files as they were before the call (the outcome of the iteration order
+//!    that meets the failing file first - one of the orders the real code can take).
 //! Every access is also a scheduling point of the engine and costs simulated time.
 use std::cell::Cell;
 use std::collections::BTreeMap;
@@ -13,19 +16,20 @@ use std::io;
 use std::path::{Path, PathBuf};
 use std::sync::{Mutex, OnceLock};
 
-#[derive(Clone, Copy, Debug, Default, PartialEq)]
+#[derive(Clone, Debug, Default, PartialEq)]
 pub struct Armed {
     /// fail the next read of this thread's current call
     pub read_err: bool,
-    /// fail the k-th (1-based) write of this thread's current call; 0: none
-    pub fail_write: usize,
+    /// fail the write of this file during this thread's current call
+    pub fail_name: Option<PathBuf>,
     /// the failing write leaves this many percent of the data on the disk (0: the old content stays)
     pub torn_pct: usize,
 }
 
 thread_local! {
-    static ARMED: Cell<Armed> = Cell::new(Armed::default());
-    static WRITES_IN_CALL: Cell<usize> = Cell::new(0);
+    static ARMED: std::cell::RefCell<Armed> = std::cell::RefCell::new(Armed::default());
+    /// what the files written during the current call held before it (None: did not exist)
+    static JOURNAL: std::cell::RefCell<Vec<(PathBuf, Option<Vec<u8>>)>> = std::cell::RefCell::new(Vec::new());
     static FIRED: Cell<u32> = Cell::new(0);
 }
 
@@ -70,15 +74,39 @@ pub fn reset() {
 
 /// arm the faults of the call the current thread is about to make; returns a guard-like token count of faults fired so far
 pub fn arm(a: Armed) {
-    ARMED.with(|c| c.set(a));
-    WRITES_IN_CALL.with(|c| c.set(0));
+    ARMED.with(|c| *c.borrow_mut() = a);
+    JOURNAL.with(|j| j.borrow_mut().clear());
     FIRED.with(|c| c.set(0));
 }
 
 /// disarm after the call; returns how many injected faults fired during it
 pub fn disarm() -> u32 {
-    ARMED.with(|c| c.set(Armed::default()));
+    ARMED.with(|c| *c.borrow_mut() = Armed::default());
+    JOURNAL.with(|j| j.borrow_mut().clear());
     FIRED.with(|c| c.replace(0))
+}
+
+/// after a call that reported the injected write error: the files it wrote before it met the failing one go back to what
+/// they held before the call (see the module comment)
+pub fn undo_other_writes_of_failed_call() {
+    let journal: Vec<(PathBuf, Option<Vec<u8>>)> = JOURNAL.with(|j| std::mem::take(&mut *j.borrow_mut()));
+    let mut st = simfs().m.lock().unwrap_or_else(|e| e.into_inner());
+    // first pre-image per path wins (a path written twice in one call)
+    let mut seen: Vec<PathBuf> = Vec::new();
+    for (path, pre) in journal {
+        if seen.contains(&path) {
+            continue;
+        }
+        seen.push(path.clone());
+        match pre {
+            Some(d) => {
+                st.files.insert(path, d);
+            }
+            None => {
+                st.files.remove(&path);
+            }
+        }
+    }
 }
 
 /// put a file on the disk behind the crate's back (the document a later `load_file` finds)
@@ -106,7 +134,7 @@ pub fn take_counters() -> FsCounters {
 impl autosar_data::verif::FsHooks for SimFs {
     fn read(&self, path: &Path) -> io::Result<Vec<u8>> {
         crate::engine::engine().io_point();
-        let armed = ARMED.with(|c| c.get());
+        let armed = ARMED.with(|c| c.borrow().clone());
         let mut st = self.m.lock().unwrap_or_else(|e| e.into_inner());
         st.counters.reads += 1;
         if armed.read_err {
@@ -129,17 +157,13 @@ impl autosar_data::verif::FsHooks for SimFs {
 
     fn write(&self, path: &Path, contents: &[u8]) -> io::Result<()> {
         crate::engine::engine().io_point();
-        let armed = ARMED.with(|c| c.get());
-        let nth = WRITES_IN_CALL.with(|c| {
-            c.set(c.get() + 1);
-            c.get()
-        });
+        let armed = ARMED.with(|c| c.borrow().clone());
         let mut st = self.m.lock().unwrap_or_else(|e| e.into_inner());
         st.counters.writes += 1;
         if path.as_os_str().is_empty() {
             return Err(io::Error::new(io::ErrorKind::NotFound, "simulated: empty path"));
         }
-        if armed.fail_write != 0 && armed.fail_write == nth {
+        if armed.fail_name.as_deref() == Some(path) {
             FIRED.with(|c| c.set(c.get() + 1));
             if armed.torn_pct > 0 {
                 let keep = contents.len() * armed.torn_pct.min(99) / 100;
@@ -150,6 +174,8 @@ impl autosar_data::verif::FsHooks for SimFs {
             }
             return Err(io::Error::new(io::ErrorKind::Other, "simulated write error (ENOSPC)"));
         }
+        let pre = st.files.get(path).cloned();
+        JOURNAL.with(|j| j.borrow_mut().push((path.to_path_buf(), pre)));
         st.counters.bytes_written += contents.len() as u64;
         st.files.insert(path.to_path_buf(), contents.to_vec());
         Ok(())
